@@ -1252,8 +1252,10 @@ class Recompiler:
                     tp.name == 'long double')
         #
         size_of_a = max(len(tp.args)*8, 8)
-        if may_need_128_bits(tp.result):
-            size_of_a = max(size_of_a, 16)
+        if may_need_128_bits(tp.result) or (
+                isinstance(tp.result, model.PrimitiveType) and
+                tp.result.name == '_cffi_double_complex_t'):
+            size_of_a = max(size_of_a, 16)    # the 16-bytes result is stored there
         if isinstance(tp.result, model.StructOrUnion):
             size_of_a = 'sizeof(%s) > %d ? sizeof(%s) : %d' % (
                 tp.result.get_c_name(''), size_of_a,
